@@ -59,6 +59,14 @@ Section C01.
     apply in_or_app. left. apply in_or_app. right. left. reflexivity.
   Qed.
 
+  (* a word that is evaluated again later (scan = true: [[ ]] operands, for words, here-strings) and holds, next to parsed
+     expansions, a substitution that quoting keeps from running now, is never approved *)
+  Lemma inert_opener_asks c k ss fs ks : let t := T k ss fs ks in
+    nonempty (children "parts" t) = true -> has_inert_opener (attr_d "value" t) = true -> In Ask (r_wp (ev t) true c).
+  Proof.
+    intros t Hp Hi. subst t. rewrite wp_unfold, Hp, Hi. cbn [negb]. apply in_or_app. right. apply in_or_app. right. left. reflexivity.
+  Qed.
+
   Lemma unclosed_arith_cmd_asks c ss fs ks : let t := T $"arith-cmd" ss fs ks in
     unclosed_arith (attr_d "raw_content" t) = true -> walk c t <> Allow.
   Proof.
